@@ -18,7 +18,7 @@ var srcC18d = []*g2lTarget{
 		params:  "(s : pluginPrimitiveSigner) (payload : Bytes)",
 		ret:     "Option Bytes × Option (List Cert) × Option GoLite.Err",
 		retOpt:  []bool{true, true, true},
-		optVars: []string{"err", "resp", "certs"},
+		optVars: []string{"err", "resp"},
 		callSubst: map[string]string{
 			"proto.EncodeKeySpec":            "proto.EncodeKeySpec",
 			"proto.HashAlgorithmFromKeySpec": "proto.HashAlgorithmFromKeySpec",
